@@ -354,6 +354,20 @@ def probes(model, part, case, touched):
                             built = json.loads(cls(prop="v").serialize())
                         except Exception as e:
                             built = {"error": "%s: %s" % (type(e).__name__, str(e)[:100])}
+                        # ... and keeps every OTHER extension it was given next to its own (round trip of custom types)
+                        other = {"x-verif-other-ext": {"a": 1}}
+                        src = probe_object(name, ver) if cat == "objects" else {"type": name, "spec_version": "2.1", "id": "%s--%s9" % (name, UA), "prop": "v"}
+                        for how2, mk2 in (("parsed", lambda: stix2.parse(dict(src, extensions=dict({ext_id: {"extension_type": want_t}}, **other)), version=ver, allow_custom=True)),
+                                          ("parsed-without-own-extension", lambda: stix2.parse(dict(src, extensions=dict(other)), version=ver, allow_custom=True)),
+                                          ("constructed", lambda: cls(prop="v", extensions=dict(other), allow_custom=True))):
+                            part.transitions += 1
+                            try:
+                                e3 = json.loads(mk2().serialize()).get("extensions")
+                            except (X.STIXError, ValueError, TypeError) as e:
+                                e3 = "%s: %s" % (type(e).__name__, str(e)[:100])
+                            if not isinstance(e3, dict) or e3.get("x-verif-other-ext") != {"a": 1} or ext_id not in e3:
+                                fail("C19/round-trip/%s/other-extension-lost" % cat, "an object of a type registered with extension_name loses the other extensions it was given",
+                                     dict({ext_id: {"extension_type": want_t}}, **other), e3, [cat, name, ver, how2])
                         for how, o2 in (("parsed", out), ("constructed", built)):
                             e2 = o2.get("extensions") if isinstance(o2.get("extensions"), dict) else {}
                             if not isinstance(e2.get(ext_id), dict) or e2[ext_id].get("extension_type") != want_t:
